@@ -359,6 +359,21 @@ def compare(ip, op, a, b, st, node=None):
     if isinstance(a, Obj) and isinstance(b, Obj) and t in (ast.Eq, ast.NotEq) \
             and st.heap[a.oid].kind == 'inst' and st.heap[b.oid].kind == 'inst':
         return [((a.oid == b.oid) == (t is ast.Eq), st)]
+    if t in (ast.Eq, ast.NotEq):
+        def concrete(v):
+            if isinstance(v, Const):
+                return True, v.value
+            if isinstance(v, TupleV):
+                xs = [concrete(x) for x in v.items]
+                return all(o for o, _ in xs), tuple(x for _, x in xs)
+            if isinstance(v, Obj) and st.heap[v.oid].kind == 'list' and not st.heap[v.oid].open:
+                xs = [concrete(x) for x in st.heap[v.oid].items]
+                return all(o for o, _ in xs), [x for _, x in xs]
+            return False, None
+        oa, va = concrete(a)
+        ob, vb = concrete(b)
+        if oa and ob:
+            return [((va == vb) == (t is ast.Eq), st)]
     # interval separation between two symbols
     ia, ib = ival(a, st), ival(b, st)
     if ia is not None and ib is not None and t in _FLIP:
